@@ -5,6 +5,8 @@ import (
 	"context"
 	"errors"
 	"fmt"
+	"runtime/debug"
+	"syscall"
 
 	astits "github.com/asticode/go-astits"
 	"verif/mc"
@@ -253,6 +255,55 @@ func c16CallerPayload(c *mc.Ctx) {
 				}
 			}
 		}
+	}
+	// the same payloads (and the private data of an adaptation field) in read-only memory: a Muxer that changes the
+	// caller's bytes and puts them back between two Write calls is invisible to comparisons, not to the MMU
+	if page, err := syscall.Mmap(-1, 0, 1<<16, syscall.PROT_READ|syscall.PROT_WRITE, syscall.MAP_ANON|syscall.MAP_PRIVATE); err == nil {
+		for i := range page {
+			page[i] = byte(0x10 + (i*11)%0xd0)
+		}
+		if syscall.Mprotect(page, syscall.PROT_READ) == nil {
+			old := debug.SetPanicOnFault(true)
+			var nro int64
+			for _, l := range append(append([]int{}, sizes...), 1, 183, 184, 185, 20000) {
+				for _, kind := range []string{"data", "data+private", "packet"} {
+					w := NewRecWriter()
+					m := astits.NewMuxer(context.Background(), w, astits.MuxerOptTablesRetransmitPeriod(2))
+					m.AddElementaryStream(astits.PMTElementaryStream{ElementaryPID: 0x100, StreamType: astits.StreamTypeH264Video})
+					m.SetPCRPID(0x100)
+					var err error
+					p := mc.Catch(func() {
+						switch kind {
+						case "packet":
+							if l > 184 {
+								return
+							}
+							_, err = m.WritePacket(&astits.Packet{Header: astits.PacketHeader{PID: 0x300, HasPayload: true}, Payload: page[32 : 32+l]})
+						default:
+							var af *astits.PacketAdaptationField
+							if kind == "data+private" {
+								af = &astits.PacketAdaptationField{HasTransportPrivateData: true, TransportPrivateData: page[40000:40020], TransportPrivateDataLength: 20}
+							}
+							for k := 0; k < 2; k++ {
+								_, err = m.WriteData(&astits.MuxerData{PID: 0x100, AdaptationField: af, PES: &astits.PESData{Data: page[32 : 32+l], Header: &astits.PESHeader{OptionalHeader: &astits.PESOptionalHeader{MarkerBits: 2, PTSDTSIndicator: astits.PTSDTSIndicatorOnlyPTS, PTS: &astits.ClockReference{Base: 3600}}}}})
+							}
+						}
+					})
+					nro++
+					if p != nil {
+						c.Rep.Report("caller-payload-modified-during-call", map[string]any{"kind": "c16-payload", "payload_len": l, "with_af": kind == "data+private", "fail_at": -1, "mode": "read-only memory: " + kind,
+							"message": fmt.Sprintf("the Muxer writes to the caller's payload / private data bytes (they lie in read-only memory; the write faulted: %v)", p)})
+					} else if err != nil {
+						c.Rep.Report("valid-call-failed", map[string]any{"kind": "c16-payload", "payload_len": l, "with_af": kind == "data+private", "fail_at": -1, "mode": kind, "message": err.Error()})
+					}
+				}
+			}
+			debug.SetPanicOnFault(old)
+			c.Ev.Class("payload-in-read-only-memory", nro)
+			n += nro
+		}
+		syscall.Mprotect(page, syscall.PROT_READ|syscall.PROT_WRITE)
+		syscall.Munmap(page)
 	}
 	c.Ev.DistinctAdd(n)
 	c.Ev.AddScenario(mc.Scenario{Name: "caller-payload-integrity", SpaceSize: n, Executed: n, Exhaustive: true,
